@@ -27,7 +27,7 @@ def worker_env(hashseed, repo):
         'PYTHONHASHSEED': str(hashseed), 'OMP_NUM_THREADS': '1',
         'OPENBLAS_NUM_THREADS': '1', 'MKL_NUM_THREADS': '1', 'MPLBACKEND': 'Agg',
         'PYTHONWARNINGS': 'default', 'TZ': 'UTC', 'PYTHONDONTWRITEBYTECODE': '1',
-        'SIMLAB_REPO': repo, 'PYTHONPATH': HERE, 'PYTHONUNBUFFERED': '1',
+        'SIMLAB_REPO': repo, 'PYTHONPATH': HERE, 'PYTHONUNBUFFERED': '1', 'PYTHONUTF8': '1',
     })
     return env
 
